@@ -347,6 +347,7 @@ func (rd *HandlingDataManager) handleApplyFlows() func(http.ResponseWriter, *htt
 				"Unsupported Method for applying flows",
 				http.StatusMethodNotAllowed,
 			)
+			return
 		}
 		incomingData := stream_config.NewConfigurationPayload()
 
@@ -403,6 +404,7 @@ func (rd *HandlingDataManager) handleConfiguration() func(http.ResponseWriter, *
 				"Unsupported Method for configuration",
 				http.StatusMethodNotAllowed,
 			)
+			return
 		}
 		incomingData := stream_config.NewConfigurationPayload()
 
